@@ -479,3 +479,148 @@ def ffsp_multistage_case(ctx, case):
         ctx.violation(dict(sig, q="loglik_stage_pairing"), f"instance {b}: returned log-likelihood {float(got[b]):.5f} != sum of the deciding stages' log-probs of the executed jobs {float(want[b]):.5f}", dict(B=B, T=T))
         return
     ctx.nontrivial_case(dict(c=case, a=out["actions"].tolist()))
+
+
+def _steps_match(ctx, sig, what, ll, ll_ev, tol, witness):
+    """per-step comparison of returned vs re-evaluated log-probs ([R, T] each); -inf / nan anywhere in the returned ones is a
+    violation by itself (an action the policy gave probability zero was 'taken')"""
+    if ll.shape != ll_ev.shape:
+        ctx.violation(dict(sig, q=what + "_shape"), f"returned per-step log-probs {tuple(ll.shape)} vs evaluation {tuple(ll_ev.shape)}", witness)
+        return False
+    if not bool(torch.isfinite(ll).all()):
+        ctx.violation(dict(sig, q=what + "_nonfinite"), "returned per-step log-probs contain non-finite values", witness)
+        return False
+    d = (ll.double() - ll_ev.double()).abs()
+    if bool((d > tol).any()):
+        r, t = [int(x) for x in (d == d.max()).nonzero()[0]]
+        ctx.violation(dict(sig, q=what), f"row {r}, step {t}: returned log-prob {float(ll[r, t]):.6f} but the policy assigns {float(ll_ev[r, t]):.6f} to the returned action (max diff {float(d.max()):.3g})", witness)
+        return False
+    return True
+
+
+def beam_case(ctx, case):
+    """decode_type='beam_search': the returned per-step log-probs (and their sum, and the entropy) must be those the policy
+    assigns to the returned sequences - evaluate(actions) on the replicated instances reproduces them."""
+    from rl4co.utils.ops import batchify
+
+    kind, name, n, B, W, seed = case["policy"], case["env"], case["n"], case["B"], case["W"], case["s"]
+    env, O, cfg = policies.env_for(name, n, **case.get("extra", {}))
+    pol = policies.make(kind, env, seed=case.get("wseed", 0))
+    torch.manual_seed(seed)
+    td0 = env.reset(env.generator(batch_size=[B]))
+    sb = case["select_best"]
+    sig = dict(policy=kind, env=name, decode="beam_search", select_best=sb)
+    wit = dict(B=B, n=n, W=W)
+    with torch.no_grad():
+        try:
+            out = pol(td0.clone(), env, phase="test", decode_type="beam_search", beam_width=W, select_best=sb, return_actions=True, return_entropy=True, return_sum_log_likelihood=False)
+            out_sum = pol(td0.clone(), env, phase="test", decode_type="beam_search", beam_width=W, select_best=sb, return_actions=True, return_sum_log_likelihood=True)
+        except Exception as e:
+            ctx.evaluation()
+            ctx.violation(dict(sig, q="forward_raises", exc=type(e).__name__), f"beam-search forward raised {type(e).__name__}: {str(e)[:200]}", wit)
+            return
+        ctx.count("c11_forwards")
+        ctx.count("c11_beam_forwards")
+        actions, ll = out["actions"], out["log_likelihood"]
+        td_rep = td0.clone() if sb else batchify(td0.clone(), W)
+        ev = pol(td_rep, env, phase="test", actions=actions, return_entropy=True, return_sum_log_likelihood=False)
+    ll_ev = ev["log_likelihood"]
+    mx = 50.0
+    tol = 1e-4 + 8 * 1.2e-7 * mx
+    T0 = 1  # the forced first move contributes zero in both
+    ctx.evaluation(actions.shape[0])
+    ctx.count("c11_rows_checked", actions.shape[0])
+    if bool((ll[:, 0] != 0).any()):
+        ctx.violation(dict(sig, q="forced_start_nonzero"), "the forced first move of a beam contributes a non-zero log-prob", wit)
+        return
+    # the evaluation stops when every row is done; the best beam of a batch may carry trailing padding steps beyond that
+    Tc = min(ll.shape[1], ll_ev.shape[1])
+    if bool((ll[:, Tc:] != 0).any()) or bool((ll_ev[:, Tc:] != 0).any()):
+        ctx.violation(dict(sig, q="padding_steps_nonzero"), "steps after the end of the episode contribute a non-zero log-prob", wit)
+        return
+    if not _steps_match(ctx, sig, "beam_steps_vs_evaluate", ll[:, T0:Tc], ll_ev[:, T0:Tc], tol, wit):
+        return
+    ctx.count("c11_roundtrips")
+    if not torch.allclose(out["reward"], ev["reward"], atol=1e-5, rtol=1e-5):
+        ctx.violation(dict(sig, q="reward_roundtrip"), "evaluate(actions) gives another reward than the beam-search call", wit)
+        return
+    if torch.equal(out_sum["actions"], actions):
+        s1, s2 = out_sum["log_likelihood"].double(), ll.double().sum(-1)
+        if s1.shape != s2.shape or bool(((s1 - s2).abs() > 1e-4 * (1 + s2.abs())).any()):
+            ctx.violation(dict(sig, q="sum_vs_steps"), f"summed log-likelihood {s1.flatten()[:4].tolist()} != sum of the per-step values {s2.flatten()[:4].tolist()}", wit)
+            return
+        ctx.count("c11_sum_checks")
+    # entropy: evaluation also counts the distribution of the first step, which beam search forces (and does not record);
+    # the two differ by exactly that step's entropy, recomputed here from the evaluation's first-step distribution is not
+    # available at this boundary, so only the inequality is checked: forcing a step can only remove entropy
+    e1, e2 = out.get("entropy"), ev.get("entropy")
+    if e1 is not None and e2 is not None and e1.shape == e2.shape:
+        if bool((e1.double() > e2.double() + 1e-3 * (1 + e2.double().abs())).any()):
+            ctx.violation(dict(sig, q="entropy_roundtrip"), f"entropy {e1.flatten()[:4].tolist()} from beam search exceeds {e2.flatten()[:4].tolist()} from evaluating the same sequences (which also counts the forced first step)", wit)
+            return
+        ctx.count("c11_entropy_checks")
+    for r in range(actions.shape[0]):
+        ctx.nontrivial_case(dict(a=actions[r].tolist(), e=name, s=seed, W=W))
+
+
+def eas_case(ctx, case):
+    """EAS rollouts (rl4co.models.zoo.eas.decoder.forward_eas on the AM decoder, called as EAS.training_step does): every
+    instance gets num_starts sampled rollouts plus, from the second iteration on, one rollout forced along the incumbent.
+    For EVERY returned row the per-step log-probs must be those of the returned (sampled or forced) actions."""
+    from rl4co.models.zoo.eas.decoder import forward_eas
+    from rl4co.utils.decoding import get_log_likelihood
+    from rl4co.utils.ops import batchify, unbatchify
+
+    name, n, B, seed, it = case["env"], case["n"], case["B"], case["s"], case["iter"]
+    env, O, cfg = policies.env_for(name, n)
+    pol = policies.make("am", env, seed=case.get("wseed", 0))
+    dec = pol.decoder
+    for attr in ("temperature", "tanh_clipping", "mask_logits"):
+        setattr(dec, attr, getattr(pol, attr))
+    torch.manual_seed(seed)
+    td0 = env.reset(env.generator(batch_size=[B]))
+    sig = dict(policy="am", env=name, decode="eas_rollout", incumbent=bool(it))
+    wit = dict(B=B, n=n, iter=it)
+    with torch.no_grad():
+        ns = env.get_num_starts(td0)
+        group = ns + 1
+        # incumbent: a feasible solution of each instance (a greedy rollout), stored in EAS's 2 x problem-size buffer
+        inc = pol(td0.clone(), env, phase="test", decode_type="multistart_sampling", num_starts=ns, select_best=True, return_actions=True)["actions"]
+        L = max(2 * n, inc.shape[1] + 1)
+        best = torch.zeros(B, L, dtype=torch.long)
+        best[:, : inc.shape[1]] = inc
+        try:
+            emb, _ = pol.encoder(td0)
+            cached = dec._precompute_cache(emb)
+            logprobs, actions, td_out, reward = forward_eas(dec, td0.clone(), cached_embeds=cached, best_solutions=best, iter_count=it, env=env, decode_type="multistart_sampling", num_starts=ns)
+            ll = get_log_likelihood(logprobs, actions, td_out.get("mask", None), return_sum=False)
+        except Exception as e:
+            ctx.evaluation()
+            ctx.violation(dict(sig, q="forward_raises", exc=type(e).__name__), f"forward_eas raised {type(e).__name__}: {str(e)[:200]}", wit)
+            return
+        ctx.count("c11_forwards")
+        ctx.count("c11_eas_rollouts")
+        ev = pol(batchify(td0.clone(), group), env, phase="test", actions=actions, return_sum_log_likelihood=False)
+    ll_ev = ev["log_likelihood"]
+    ctx.evaluation(actions.shape[0])
+    ctx.count("c11_rows_checked", actions.shape[0])
+    a3 = unbatchify(actions, group)
+    if it > 0:
+        T = inc.shape[1]
+        if a3.shape[-1] < T or not torch.equal(a3[:, -1, :T], inc):
+            # the forced rollout is documented to follow the incumbent; if it does not, only the log-prob law below applies
+            ctx.count("c11_eas_incumbent_not_followed")
+        else:
+            ctx.count("c11_eas_incumbent_rows", B)
+    if bool((ll[:, 0] != 0).any()):
+        ctx.violation(dict(sig, q="forced_start_nonzero"), "the forced first move contributes a non-zero log-prob", wit)
+        return
+    T = min(ll.shape[1], ll_ev.shape[1])
+    if not _steps_match(ctx, sig, "eas_steps_vs_evaluate", ll[:, 1:T], ll_ev[:, 1:T], 2e-4, wit):
+        return
+    ctx.count("c11_roundtrips")
+    if not torch.allclose(reward, ev["reward"], atol=1e-5, rtol=1e-5):
+        ctx.violation(dict(sig, q="reward_roundtrip"), "evaluate(actions) gives another reward than the EAS rollout", wit)
+        return
+    for r in range(actions.shape[0]):
+        ctx.nontrivial_case(dict(a=actions[r].tolist(), e=name, s=seed, eas=it))
